@@ -22,9 +22,18 @@ import (
 
 var c11Lens = []int{0, 1, 2, 255, 256, 257, 1000, 65535, 65536, 70000}
 
+var c11Runes = []rune("城市一二三ключéèêü語言")
+
 func c11Bytes(r *rand.Rand, n int) []byte {
 	b := make([]byte, n)
-	switch r.Intn(3) {
+	switch r.Intn(4) {
+	case 3: // valid multi-byte UTF-8 whose runes share lead bytes and differ in continuation bytes
+		var sb []byte
+		for len(sb) < n {
+			sb = append(sb, string(c11Runes[r.Intn(len(c11Runes))])...)
+		}
+		copy(b, sb)
+		return b
 	case 0:
 		r.Read(b)
 	case 1:
